@@ -367,6 +367,26 @@ def mod(a: Any, b: Any) -> Any:
     return mk_int(ta - tb * SInt.lift(fd))
 
 
+def _small_range(k: Any, limit: int = 64) -> tuple[int, int] | None:
+    """(lo, hi) with hi - lo < limit such that lo <= k <= hi is provable under the current path condition."""
+    for lo, hi in ((0, 7), (0, 15), (0, 31), (0, 63)):
+        if hi - lo < limit and _provable(And(k >= lo, k <= hi)):
+            return lo, hi
+    return None
+
+
+def _shift_sym(a: Any, k: Any, left: bool) -> Any:
+    r = _small_range(k)
+    if r is None:
+        raise Unsupported("shift by a symbolic amount that is not provably within 0..63")
+    lo, hi = r
+    f = (lambda j: lshift(a, j)) if left else (lambda j: rshift(a, j))
+    res = f(hi)
+    for j in range(hi - 1, lo - 1, -1):
+        res = ite(k == j, f(j), res)
+    return res
+
+
 def lshift(a: Any, k: Any) -> Any:
     if isinstance(a, int) and isinstance(k, int):
         return a << k
@@ -374,7 +394,7 @@ def lshift(a: Any, k: Any) -> Any:
         if k < 0:
             raise ValueError("negative shift count")
         return mk_int(SInt.lift(a) * (1 << k))
-    raise Unsupported("shift by symbolic amount")
+    return _shift_sym(a, k, True)
 
 
 def rshift(a: Any, k: Any) -> Any:
@@ -384,7 +404,36 @@ def rshift(a: Any, k: Any) -> Any:
         if k < 0:
             raise ValueError("negative shift count")
         return mk_int(SInt.lift(a) / z3.IntVal(1 << k))
-    raise Unsupported("shift by symbolic amount")
+    return _shift_sym(a, k, False)
+
+
+def _ite_leaves_map(t: Any, f: Any, budget: list[int]) -> Any:
+    """Rebuild an if-then-else tree with integer-constant leaves, applying f to each leaf; None if t is not one."""
+    if z3.is_int_value(t):
+        budget[0] -= 1
+        if budget[0] < 0:
+            return None
+        return z3.IntVal(f(t.as_long()))
+    if z3.is_app_of(t, z3.Z3_OP_ITE):
+        c, x, y = t.children()
+        xx = _ite_leaves_map(x, f, budget)
+        if xx is None:
+            return None
+        yy = _ite_leaves_map(y, f, budget)
+        if yy is None:
+            return None
+        return z3.If(c, xx, yy)
+    return None
+
+
+def _map_const_op(a: Any, b: Any, op: Any) -> Any:
+    """op(const, ite-tree-of-consts) computed leaf-wise."""
+    for x, y in ((a, b), (b, a)):
+        if isinstance(x, int) and isinstance(y, SInt):
+            r = _ite_leaves_map(y.t, lambda v, x=x: op(x, v), [256])
+            if r is not None:
+                return mk_int(r)
+    return None
 
 
 _BITAND = z3.Function("py_bitand", z3.IntSort(), z3.IntSort(), z3.IntSort())
@@ -426,6 +475,9 @@ def bitand(a: Any, b: Any) -> Any:
     if isinstance(a, SBool) or isinstance(b, SBool):
         if isinstance(a, (SBool, bool)) and isinstance(b, (SBool, bool)):
             return mk_bool(z3.And(SBool.lift(a), SBool.lift(b)))
+    m = _map_const_op(a, b, lambda p, q: p & q)
+    if m is not None:
+        return m
     if isinstance(a, int):
         a, b = b, a
     if isinstance(b, int) and not isinstance(b, bool):
